@@ -191,6 +191,7 @@ type Obligation struct {
 	File    string
 	qhash   string // hash of the query text (result cache within one run)
 	Extra   []string // extra declarations local to this obligation (skolems)
+	Group   string   // isolated invariant group (assumptions of other groups are left out of the query)
 }
 
 type VC struct {
@@ -283,6 +284,17 @@ func (vc *VC) assume(term string) {
 		return
 	}
 	vc.emit(app("assert", term))
+}
+
+// groupMark: prefix of an assumption that belongs to an isolated invariant group (see Clause.Group)
+const groupMark = ";@group "
+
+func (vc *VC) assumeGroup(group, term string) {
+	if group == "" {
+		vc.assume(term)
+		return
+	}
+	vc.emit(groupMark + group + "\n" + app("assert", term))
 }
 
 func (vc *VC) declareFun(name string, args []string, ret string) string {
@@ -795,6 +807,12 @@ func (vc *VC) query(o *Obligation) string {
 	var b strings.Builder
 	b.WriteString("; obligation " + o.Name + "\n; function " + o.Func + "\n; at " + o.Pos + "\n(set-logic ALL)\n")
 	for _, d := range vc.decls[:o.NDecls] {
+		if strings.HasPrefix(d, groupMark) {
+			nl := strings.Index(d, "\n")
+			if d[len(groupMark):nl] != o.Group {
+				continue
+			}
+		}
 		b.WriteString(d)
 		b.WriteByte('\n')
 	}
